@@ -1,0 +1,19 @@
+//go:build verif
+
+package repository
+
+import "github.com/go-git/go-billy/v5"
+
+// VerifWrapLocalStorage, when set (verification builds only), is given the filesystem backing the
+// local storage of every GoGitRepo being created or opened and returns the one to use instead.
+// It lets a harness observe, or interrupt, the file operations git-bug issues on its own files.
+var VerifWrapLocalStorage func(fs billy.Filesystem) billy.Filesystem
+
+func verifRepoHook(repo *GoGitRepo) {
+	if VerifWrapLocalStorage == nil {
+		return
+	}
+	if ls, ok := repo.localStorage.(billyLocalStorage); ok {
+		repo.localStorage = billyLocalStorage{Filesystem: VerifWrapLocalStorage(ls.Filesystem)}
+	}
+}
